@@ -12,6 +12,8 @@ ASSUMPTIONS = [
     "generated projects also pass some dependencies inside one dict / list / tuple argument together with plain values; some task modules live in "
     "sub-directories with a section-less pyproject.toml and histories mix builds of the whole project with builds of one sub-directory "
     "(model: the project restricted to the tasks collected there, same world)",
+    "histories also address the unchanged project through other spellings (../name from a sibling directory, a symlink alias), switch an untracked "
+    "fail-flag file on and off, and exchange the contents of inputs that form one hashed Python value",
 ]
 EDITS = ["touch", "touch", "rewrite_same", "rewrite_same", "write", "revert", "bump", "revert_module", "tamper", "delete_product", "add_task", "flag", "swap"]
 CFGS = [{}, {}, {}, {"k": "task_t00x"}, {"k": "task_t01x or task_t02x"}, {"dry": True}, {"force": True}, {"sub": "?"}, {"sub": "?"}, {"via": "rel"}, {"via": "link"}]
